@@ -10,6 +10,10 @@ Two levels, both executable:
   `rs` = the `Response` pointer, `none` = nil), `entries` is a Go map (`GoMap`: lookup + `len`),
   `tail` is the tail pointer of the circular singly linked list.
 
+* API level (`Logger`, `Call`, end of the file): the logging options and the `NewRequest` /
+  `NewResponse` failure paths; a call = thread-local prelude + at most one critical section (`Op`;
+  `Op.idle` = returned before the lock).  `Model/HarLogConc.lean` runs such calls concurrently.
+
 A request / response is identified by the index of the operation that recorded it (`t`): the
 harness puts that index into the request URL / response status so that "each response attached to
 its own request" is observable.  Core Lean only (linked into the driver).
@@ -31,11 +35,14 @@ inductive Op where
   | exp                    -- Export()
   | xreset                 -- ExportAndReset()
   | reset                  -- Reset()
+  | idle (failed : Bool)   -- a call that never reaches `l.mu.Lock()`: `RecordRequest`/`RecordResponse`
+                           -- returning the `NewRequest`/`NewResponse` error (`failed`), or `SetOption`
 deriving DecidableEq, Repr
 
 inductive Obs where
   | ok
   | dup                    -- "Duplicate request ID" error
+  | err                    -- the error of `NewRequest` / `NewResponse` (message could not be logged)
   | log (es : List Ent)    -- the Entries slice of the returned HAR
   | panic                  -- nil dereference (unreachable from `init`, proved)
   | diverge                -- loop fuel exhausted (unreachable from `init`, proved)
@@ -61,6 +68,7 @@ def step (l : Log) (t : Nat) : Op → Log × Obs
   | .exp => (l, .log l)
   | .xreset => (l.filter (fun e => !e.done), .log (l.filter (fun e => e.done)))
   | .reset => ([], .ok)
+  | .idle f => (l, if f then .err else .ok)
 
 /-- Run a history from clock `t`; the i-th operation carries tag `t + i`. -/
 def run (l : Log) (t : Nat) : List Op → List Obs
@@ -204,6 +212,7 @@ def step (h : Heap) (t : Nat) : Op → Heap × Obs
   | .exp => (h, exportLog h)
   | .xreset => exportAndReset h
   | .reset => (reset h, .ok)
+  | .idle f => (h, if f then .err else .ok)      -- returns before the lock: no access to the log
 
 def run (h : Heap) (t : Nat) : List Op → List Obs
   | [] => []
@@ -213,5 +222,163 @@ def run (h : Heap) (t : Nat) : List Op → List Obs
 def after (h : Heap) (t : Nat) : List Op → Heap
   | [] => h
   | o :: os => after (step h t o).1 (t + 1) os
+
+/-- Tagged histories: every call carries its own tag (concurrent runs: the harness's call number). -/
+def runT (h : Heap) : List (Nat × Op) → List Obs
+  | [] => []
+  | (t, o) :: os => (step h t o).2 :: runT (step h t o).1 os
+
+def afterT (h : Heap) : List (Nat × Op) → Heap
+  | [] => h
+  | (t, o) :: os => afterT (step h t o).1 os
+
+/-! ## The API level: `har.Logger` with its options and the `NewRequest` / `NewResponse` failure paths
+
+`RecordRequest` and `RecordResponse` build the HAR message from the HTTP message BEFORE taking the
+lock; when that fails they return the error and never touch the log.  A call is therefore a
+thread-local prelude (`Call.critical`: options, message → which critical section runs, if any)
+followed by at most one critical section (`Op`, above). -/
+
+/-- What can go wrong while the HAR message is built. -/
+inductive Fault where
+  | none
+  | read      -- the body reader returns an error (`mv.SnapshotRequest` / `mv.SnapshotResponse`)
+  | decode    -- the body is read but is not what the headers declare: multipart / urlencoded
+              -- form that does not parse (request), Content-Encoding that does not decode (response)
+deriving DecidableEq, Repr
+
+/-- The parts of an HTTP message the logger's control flow depends on. -/
+structure Msg where
+  /-- request only: `ContentLength > 0 || len(TransferEncoding) > 0` (else `postData` returns early) -/
+  framed : Bool
+  /-- the Content-Type header (the per-content-type options look at it) -/
+  ctype : String
+  fault : Fault
+deriving DecidableEq, Repr
+
+/-- a bodiless GET / a `http.NoBody` response -/
+def Msg.plain : Msg := ⟨false, "", .none⟩
+
+/-- The three option families of har.go:363-452, for post data (request) and body (response). -/
+inductive LogOpt where
+  | all (enabled : Bool)           -- PostDataLogging / BodyLogging
+  | only (cts : List String)       -- …LoggingForContentTypes
+  | skip (cts : List String)       -- Skip…LoggingForContentTypes
+deriving DecidableEq, Repr
+
+def lowerChars (s : String) : List Char := s.toList.map Char.toLower
+
+/-- `strings.HasPrefix(strings.ToLower(rct), strings.ToLower(ct))` (ASCII). -/
+def ctMatch (rct ct : String) : Bool := (lowerChars ct).isPrefixOf (lowerChars rct)
+
+def LogOpt.eval : LogOpt → String → Bool
+  | .all b, _ => b
+  | .only cts, rct => cts.any (ctMatch rct)
+  | .skip cts, rct => !cts.any (ctMatch rct)
+
+/-- `l.postDataLogging`, `l.bodyLogging`; `NewLogger` sets both to "always". -/
+structure Cfg where
+  postLog : LogOpt
+  bodyLog : LogOpt
+deriving DecidableEq, Repr
+
+def Cfg.default : Cfg := ⟨.all true, .all true⟩
+
+/-- `NewRequest(req, withBody)` returns an error (har.go:523-551, `postData` 745-…): only a framed
+    request whose body is logged is read and parsed. -/
+def newRequestFails (withBody : Bool) (m : Msg) : Bool :=
+  m.framed && withBody && m.fault != .none
+
+/-- `NewResponse(res, withBody)` returns an error (har.go:587-627). -/
+def newResponseFails (withBody : Bool) (m : Msg) : Bool :=
+  withBody && m.fault != .none
+
+inductive Call where
+  | req (id : String) (m : Msg)    -- RecordRequest(id, req)
+  | res (id : String) (m : Msg)    -- RecordResponse(id, res)
+  | exp | xreset | reset
+  | setPost (o : LogOpt)           -- SetOption(PostDataLogging… )
+  | setBody (o : LogOpt)           -- SetOption(BodyLogging… )
+deriving DecidableEq, Repr
+
+structure Logger where
+  cfg : Cfg
+  heap : Heap
+
+def Logger.init : Logger := ⟨Cfg.default, HarLog.init⟩
+
+/-- `Logger.RecordRequest` (har.go:488-517), whole method. -/
+def Logger.recordRequest (l : Logger) (id : String) (t : Nat) (m : Msg) : Logger × Obs :=
+  -- hreq, err := NewRequest(req, l.postDataLogging(req)); if err != nil { return err }
+  if newRequestFails (l.cfg.postLog.eval m.ctype) m then (l, .err) else
+  -- entry := …; l.mu.Lock(); defer l.mu.Unlock(); …
+  let (h, o) := HarLog.recordRequest l.heap id t
+  ({ l with heap := h }, o)
+
+/-- `Logger.RecordResponse` (har.go:566-581), whole method. -/
+def Logger.recordResponse (l : Logger) (id : String) (t : Nat) (m : Msg) : Logger × Obs :=
+  -- hres, err := NewResponse(res, l.bodyLogging(res)); if err != nil { return err }
+  if newResponseFails (l.cfg.bodyLog.eval m.ctype) m then (l, .err) else
+  -- l.mu.Lock(); defer l.mu.Unlock(); if e, ok := l.entries[id]; ok { e.Response = hres; … }; return nil
+  ({ l with heap := HarLog.recordResponse l.heap id t }, .ok)
+
+def Logger.step (l : Logger) (t : Nat) : Call → Logger × Obs
+  | .req id m => l.recordRequest id t m
+  | .res id m => l.recordResponse id t m
+  | .exp => (l, exportLog l.heap)
+  | .xreset => let (h, o) := exportAndReset l.heap; ({ l with heap := h }, o)
+  | .reset => ({ l with heap := HarLog.reset l.heap }, .ok)
+  | .setPost o => ({ l with cfg := { l.cfg with postLog := o } }, .ok)
+  | .setBody o => ({ l with cfg := { l.cfg with bodyLog := o } }, .ok)
+
+def Logger.run (l : Logger) (t : Nat) : List Call → List Obs
+  | [] => []
+  | c :: cs => (l.step t c).2 :: Logger.run (l.step t c).1 (t + 1) cs
+
+def Logger.after (l : Logger) (t : Nat) : List Call → Logger
+  | [] => l
+  | c :: cs => Logger.after (l.step t c).1 (t + 1) cs
+
+/-- The prelude of a call (everything before `l.mu.Lock()`): which critical section it runs. -/
+def Call.critical (c : Cfg) : Call → Op
+  | .req id m => if newRequestFails (c.postLog.eval m.ctype) m then .idle true else .req id
+  | .res id m => if newResponseFails (c.bodyLog.eval m.ctype) m then .idle true else .res id
+  | .exp => .exp
+  | .xreset => .xreset
+  | .reset => .reset
+  | .setPost _ => .idle false
+  | .setBody _ => .idle false
+
+def Cfg.next (c : Cfg) : Call → Cfg
+  | .setPost o => { c with postLog := o }
+  | .setBody o => { c with bodyLog := o }
+  | _ => c
+
+/-- The critical sections of a history of calls, in order (same length: tags stay aligned). -/
+def criticals (c : Cfg) : List Call → List Op
+  | [] => []
+  | x :: xs => x.critical c :: criticals (c.next x) xs
+
+/-- L1 at the API level: the list specification with the same failure rule. -/
+structure SLogger where
+  cfg : Cfg
+  log : Log
+
+def SLogger.step (l : SLogger) (t : Nat) : Call → SLogger × Obs
+  | .req id m =>
+    if newRequestFails (l.cfg.postLog.eval m.ctype) m then (l, .err) else
+    let (g, o) := Spec.req l.log id t; ({ l with log := g }, o)
+  | .res id m =>
+    if newResponseFails (l.cfg.bodyLog.eval m.ctype) m then (l, .err) else
+    ({ l with log := Spec.res l.log id t }, .ok)
+  | .exp => (l, .log l.log)
+  | .xreset => ({ l with log := l.log.filter (fun e => !e.done) }, .log (l.log.filter (fun e => e.done)))
+  | .reset => ({ l with log := [] }, .ok)
+  | .setPost o => ({ l with cfg := { l.cfg with postLog := o } }, .ok)
+  | .setBody o => ({ l with cfg := { l.cfg with bodyLog := o } }, .ok)
+
+def SLogger.run (l : SLogger) (t : Nat) : List Call → List Obs
+  | [] => []
+  | c :: cs => (l.step t c).2 :: SLogger.run (l.step t c).1 (t + 1) cs
 
 end Martian.HarLog
